@@ -3147,7 +3147,7 @@ def starmap(
 
 
 def starmap_indexed(
-    mapper: Callable[[Unpack[_Ts], int], _T],
+    mapper: Callable[[Unpack[_Ts], int], _T] | None = None,
 ) -> Callable[[Observable[tuple[Unpack[_Ts], int]]], Observable[_T]]:
     """Variant of :func:`starmap` which accepts an indexed mapper.
 
@@ -3166,7 +3166,8 @@ def starmap_indexed(
 
     Args:
         mapper: A transform function to invoke with unpacked elements
-            as arguments, plus the index.
+            as arguments, plus the index. If not provided, returns the
+            tuple unchanged (as :func:`starmap` does).
 
     Returns:
         An operator function that takes an observable source and
@@ -3174,6 +3175,9 @@ def starmap_indexed(
         invoking the indexed mapper function with unpacked elements
         of the source.
     """
+
+    if mapper is None:
+        return starmap()
 
     def starred(indexed_values: tuple[Unpack[_Ts], int]) -> _T:
         return mapper(*indexed_values)
